@@ -115,6 +115,9 @@ fn fn_entry(
         let mut scan = BodyScan { loops: vec![], debug_asserts: vec![], underscore_closures: vec![] };
         scan.visit_block(b);
         v["body_start"] = json!(bs);
+        if let Some(syn::Stmt::Expr(e, None)) = b.stmts.last() {
+            v["tail_start"] = json!(rng(e.span()).0);
+        }
         v["body_end"] = json!(be);
         v["loops"] = json!(scan.loops);
         v["debug_asserts"] = json!(scan.debug_asserts);
